@@ -100,6 +100,12 @@ pub fn probes() -> Vec<Probe> {
         pr("C12", "stop_sending.on-receive-only-stream", cat(&[vec![0x05], vi(3), vi(0)]), &["StreamState"]),
         pr("C12", "max_stream_data.local-unopened", cat(&[vec![0x11], vi(4 * 40), vi(1000)]), &["StreamState"]),
         pr("C12", "stream.local-unopened", stream(4 * 40, 0, b"A", false), &["StreamState"]),
+        // the victim's second unidirectional stream (id 6) was never opened, although its index is below the
+        // number of bidirectional streams the victim has opened
+        pr("C12", "max_stream_data.local-uni-unopened-below-bidi-count", cat(&[vec![0x11], vi(6), vi(1000)]), &["StreamState"]),
+        pr("C12", "stop_sending.local-uni-unopened-below-bidi-count", cat(&[vec![0x05], vi(6), vi(0)]), &["StreamState"]),
+        // ... and its first one (id 2) exists: a larger limit for it is legal
+        pr("C12", "max_stream_data.local-uni-opened", cat(&[vec![0x11], vi(2), vi(100_000)]), &["accepted"]),
         pr("C12", "stream.index-exactly-last-allowed", stream(1 + 4 * 9, 0, b"A", false), &["accepted"]),
         pr("C12", "stream.uni-index-first-beyond-limit-plus-one", stream(3 + 4 * 11, 0, b"A", false), &["StreamLimit"]),
         pr("C19", "datagram.received-when-disabled", cat(&[vec![0x31], vi(1), vec![0x41]]), &["ProtocolViolation"]),
@@ -168,6 +174,13 @@ fn run_probe(seed: u64, from: Role, big_stream: bool, frames: Vec<u8>) -> Obs {
         if let Ok(Some((_s, mut uw))) = conn.open_uni_stream().await {
             let _ = uw.write_all(b"uni").await;
             std::mem::forget(uw);
+        }
+        // two more bidirectional streams (ids 4, 8), opened but unused: the victim has now opened three
+        // bidirectional and one unidirectional stream, so the two kinds' counts differ
+        for _ in 0..2 {
+            if let Ok(Some((_s, pair))) = conn.open_bi_stream().await {
+                std::mem::forget(pair);
+            }
         }
         tokio::time::sleep(Duration::from_millis(100)).await;
         let Some(mut swriter) = rx.recv().await else { return };
